@@ -8,10 +8,15 @@
 
    Reading of the result record R: co_i0..co_z1 the corrected box; co_fields the patches applied to a copy of the source
    header (out_hdr / out_axes = how a reader parses the result); co_reads + co_data_len the output's data section as
-   placements of source byte ranges; co_foot_* the footer arrays. *)
-From Coq Require Import ZArith List Bool.
+   placements of source byte ranges; co_foot_... the footer arrays.
+   A source converted from ZGY additionally keeps its sample axis in two doubles (header bytes 84:100), which the reader
+   prefers: zdbl / crop_f64_fields / out_zdbl (Model/Cropper.v, Section F64, over an abstract binary64 type) and the
+   theorems C10_crop_header_zgy ... at the end (D55). *)
+From Coq Require Import ZArith List Bool QArith.
+From Coq Require Import Floats.SpecFloat.
 Import ListNotations.
-From SZ Require Import Lib.Py Gen.Reader Gen.Cropping Spec.Container Model.Cropper Proofs.PyLemmas Proofs.Cropper.
+From SZ Require Import Lib.Py Gen.Reader Gen.Cropping Gen.Routes Spec.Container Model.Cropper Proofs.PyLemmas Proofs.Cropper
+  Proofs.CropperZgy.
 Open Scope Z_scope.
 
 (* THE BOX: a served request is cropped to the requested ranges widened outward to block boundaries and clipped to the
@@ -40,7 +45,8 @@ Print Assumptions C10_crop_served.
 
 (* THE HEADER: the regenerated header states the box dimensions, trace count = the box, it is structured, well-formed,
    the stated disk blocks are exactly the data section that was written, everything else is the source's; the axes are
-   the sub-ranges of the source axes (the sample axis when the box starts on a whole millisecond: good_z) *)
+   the sub-ranges of the source axes (the sample axis, as the INTEGER fields 16:20 / 28:32 describe it, when the box starts
+   on a whole millisecond: good_z; a reader uses those fields unless the file was converted from ZGY: C10_crop_header_zgy) *)
 Theorem C10_crop_header : forall H A il xl zs R, wf3 H = true -> crop_by_indexes H A il xl zs = Return R ->
   let H' := out_hdr H (co_fields R) in let A' := out_axes A (co_fields R) in
   s_nil H' = co_i1 R - co_i0 R /\ s_nxl H' = co_x1 R - co_x0 R /\ s_ns H' = co_z1 R - co_z0 R /\
@@ -66,7 +72,8 @@ Print Assumptions C10_crop_header_length.
 (* known finding D7h: the start time is stored as an integer number of milliseconds; a box that starts between two
    milliseconds gets a shifted sample axis (witness: 333 us sampling, box from sample 128) *)
 Theorem C10_crop_z_axis_refuted : exists A z0 k, good_z A z0 = false /\
-  z_us {| ax_z0_ms := crp_zslices_at_int32 A z0; ax_dt_us := ax_dt_us A; ax_xl0 := 0; ax_xl_step := 1; ax_il0 := 0; ax_il_step := 1 |} k
+  z_us {| ax_z0_ms := crp_zslices_at_int32 A z0; ax_dt_us := ax_dt_us A; ax_xl0 := 0; ax_xl_step := 1; ax_il0 := 0; ax_il_step := 1;
+          ax_z0_sub_us := 0 |} k
   <> z_us A (k + z0).
 Proof. exact crop_z_axis_refuted. Qed.
 Print Assumptions C10_crop_z_axis_refuted.
@@ -114,7 +121,7 @@ Print Assumptions C10_crop_layout_refused.
 Theorem C10_crop_coords : forall H A ilc xlc zc R, crop_by_coords H A ilc xlc zc = Return R ->
   exists il xl zs,
     on_axis (ax_il0 A) (ax_il_step A) (rd_n_ilines H) ilc il /\ on_axis (ax_xl0 A) (ax_xl_step A) (rd_n_xlines H) xlc xl /\
-    on_axis (1000 * ax_z0_ms A) (ax_dt_us A) (rd_n_samples H) zc zs /\ crop_by_indexes H A il xl zs = Return R.
+    on_axis (z_start_us A) (ax_dt_us A) (rd_n_samples H) zc zs /\ crop_by_indexes H A il xl zs = Return R.
 Proof. exact crop_coords_thm. Qed.
 Print Assumptions C10_crop_coords.
 Theorem C10_crop_coords_on_axis : forall H A (il xl zs : option (Z * Z)),
@@ -122,9 +129,77 @@ Theorem C10_crop_coords_on_axis : forall H A (il xl zs : option (Z * Z)),
   let okr st n (r : option (Z * Z)) := match r with None => True | Some (a, b) => st <> 0 /\ 0 <= a < n /\ 0 <= b /\ (b < n \/ (b = n /\ 2 <= n)) end in
   okr (ax_il_step A) (rd_n_ilines H) il -> okr (ax_xl_step A) (rd_n_xlines H) xl -> okr (ax_dt_us A) (rd_n_samples H) zs ->
   crop_by_coords H A (conv (ax_il0 A) (ax_il_step A) (rd_n_ilines H) il) (conv (ax_xl0 A) (ax_xl_step A) (rd_n_xlines H) xl)
-                     (conv (1000 * ax_z0_ms A) (ax_dt_us A) (rd_n_samples H) zs) = crop_by_indexes H A il xl zs.
+                     (conv (z_start_us A) (ax_dt_us A) (rd_n_samples H) zs) = crop_by_indexes H A il xl zs.
 Proof. exact crop_coords_on_axis. Qed.
 Print Assumptions C10_crop_coords_on_axis.
+
+(* ---------------- sources converted from ZGY: the double-precision sample axis (D55) ----------------
+   F is binary64 with its operations (abstract: no property of the arithmetic is used, so the statements hold for IEEE
+   arithmetic in particular); f_is0 x is `x == 0`.  D = the doubles of the SOURCE header (zd84: first sample time in ms,
+   bytes 84:92; zd92: interval * 1000, bytes 92:100).  zs_double s i k = s + (i / 1000) * k is the reader's double-branch
+   formula; rdr_double_branch / rdr_zs_elem interpret the branch test and the two expressions GENERATED from
+   SgzReader._parse_coordinates (Gen/Routes.v), crop_f64_fields the double patch GENERATED from regenerate_header. *)
+
+(* what the generators extracted: the cropper's guard reads bytes 92:100 -- the very double the reader branches on --,
+   writes bytes 84:92 with the source's sample time at the first sample of the box, and does so right after the integer
+   start (16:20) and before the crossline start (20:24); the reader's double branch is start = double at 84,
+   step = double at 92 / 1000 *)
+Theorem C10_crop_f64_statement :
+  crp_f64_guard = (rdz_cond_f64_at, rdz_cond_f64_at + 8) /\ crp_f64_guard = (92, 100) /\ crp_f64_dest = (84, 92) /\
+  (forall H i0 i1 x0 x1 z0 z1, crp_f64_zslice H i0 i1 x0 x1 z0 z1 = z0) /\
+  (forall H A i0 i1 x0 x1 z0 z1,
+     nth_error (crp_header_fields H A i0 i1 x0 x1 z0 z1) (crp_f64_after - 1) = Some (true, 16, 20, PkI32, crp_zslices_at_int32 A z0) /\
+     nth_error (crp_header_fields H A i0 i1 x0 x1 z0 z1) crp_f64_after = Some (true, 20, 24, PkI32, crp_xlines_at A x0)) /\
+  rdz_dbl_start = RHdrF64 84 /\ rdz_dbl_step = RDiv (RHdrF64 92) (RFlt 1000).
+Proof.
+  destruct header_f64_shape as (_ & G & Dst & K). destruct reader_double_branch_shape as (_ & S & T).
+  split; [exact G|]. split; [exact G|]. split; [exact Dst|]. split; [exact K|].
+  split; [exact header_f64_position|]. split; [exact S | exact T].
+Qed.
+Print Assumptions C10_crop_f64_statement.
+
+(* THE HEADER of a crop, the doubles.  No integer patch touches bytes 84..99.
+   Source converted from ZGY (double interval non-zero; the source reader is on the double branch): the cropped header's
+   double interval is the source's, its double start IS the source reader's sample time at the first sample of the box
+   (the same binary64 value: no arithmetic in between), so a reader of the cropped file is on the double branch too and
+   its sample k is  start + (interval / 1000) * k  with that start.
+   Any other source: the patch is not executed, both doubles are the source's, the reader keeps to the integer fields
+   (C10_crop_header). *)
+Theorem C10_crop_header_zgy : forall (F : Type) (fadd fmul fdiv : F -> F -> F) (f_of_Z : Z -> F) (f_is0 : F -> bool)
+    H A il xl zs R (D : zdbl F),
+  wf3 H = true -> crop_by_indexes H A il xl zs = Return R ->
+  exists ps, crop_f64_fields F fadd fmul fdiv f_of_Z f_is0 H D (co_i0 R) (co_i1 R) (co_x0 R) (co_x1 R) (co_z0 R) (co_z1 R) = Some ps /\
+  forallb f64_untouched (co_fields R) = true /\
+  let D' := out_zdbl D ps in
+  (f_is0 (zd92 D) = false ->
+     rdr_double_branch F f_is0 D = Some true /\ rdr_double_branch F f_is0 D' = Some true /\ zd92 D' = zd92 D /\
+     Some (zd84 D') = rdr_zs_elem F fadd fmul fdiv f_of_Z D (co_z0 R) /\
+     zd84 D' = zs_double F fadd fmul fdiv f_of_Z (zd84 D) (zd92 D) (co_z0 R) /\
+     forall k, rdr_zs_elem F fadd fmul fdiv f_of_Z D' k = Some (zs_double F fadd fmul fdiv f_of_Z (zd84 D') (zd92 D) k)) /\
+  (f_is0 (zd92 D) = true ->
+     forallb (fun p => negb (f64_executed p)) ps = true /\ D' = D /\ rdr_double_branch F f_is0 D' = Some false).
+Proof. exact crop_header_zgy_thm. Qed.
+Print Assumptions C10_crop_header_zgy.
+
+(* sample k of the cropped file is  (s + (i/1000) * z0) + (i/1000) * k,  sample z0 + k of the source is
+   s + (i/1000) * (z0 + k).  Over the RATIONALS (exact arithmetic) they are equal: the cropped axis is the sub-range of
+   the source axis ... *)
+Theorem C10_crop_zgy_axis_exact : forall (s i : Q) (z0 k : Z),
+  (zs_double Q Qplus Qmult Qdiv inject_Z (zs_double Q Qplus Qmult Qdiv inject_Z s i z0) i k
+   == zs_double Q Qplus Qmult Qdiv inject_Z s i (z0 + k))%Q.
+Proof. exact zgy_axis_exact_Q. Qed.
+Print Assumptions C10_crop_zgy_axis_exact.
+
+(* ... in BINARY64 (Coq.Floats.SpecFloat, prec 53, emax 1024, round to nearest even; b64 m e = m * 2^e) they agree only up to
+   rounding, and bit equality is FALSE in general: first sample 7.5 ms, interval 0.1 ms, box from sample 128: sample 1 of
+   the cropped file and sample 129 of the source are neighbouring doubles (0x1.4666666666667p+4 / 0x1.4666666666666p+4).
+   Nothing is claimed here about the size of the difference in general (the harness compares with atol 1e-9). *)
+Theorem C10_crop_zgy_axis_not_bitwise : exists s i z0 k,
+  b64_is0 i = false /\ 0 < z0 /\ 0 <= k /\
+  SFeqb (b64_zs (b64_zs s i z0) i k) (b64_zs s i (z0 + k)) = false /\
+  b64_zs (b64_zs s i z0) i k = b64 0x14666666666667 (-48) /\ b64_zs s i (z0 + k) = b64 0x14666666666666 (-48).
+Proof. exact zgy_axis_not_bitwise. Qed.
+Print Assumptions C10_crop_zgy_axis_not_bitwise.
 
 (* the skeleton the generator checked is the one the model interprets *)
 Theorem C10_skeleton : skeleton_ok = true.
@@ -135,7 +210,7 @@ Print Assumptions C10_skeleton.
    requested: well-formed, structured, served, and the served box is inlines 0..10, crosslines 4..13, samples 0..300 *)
 Example C10_nonvacuous :
   let H := hdr_of_list [2; 300; 13; 10; 8; 4; 4; 256; 24; 520; 2; 130; 4199] in
-  let A := {| ax_z0_ms := 0; ax_dt_us := 4000; ax_xl0 := 200; ax_xl_step := 1; ax_il0 := -5; ax_il_step := 2 |} in
+  let A := {| ax_z0_ms := 0; ax_dt_us := 4000; ax_xl0 := 200; ax_xl_step := 1; ax_il0 := -5; ax_il_step := 2; ax_z0_sub_us := 0 |} in
   wf3 H = true /\ crp_structured H = true /\ request_okb H None (Some (5, 13)) (Some (100, 300)) = true /\
   layout_okb H (Some (5, 13)) (Some (100, 300)) = true /\
   s_hel H = 4 * (s_nil H * s_nxl H) /\ good_z A 0 = true /\
@@ -147,3 +222,26 @@ Example C10_nonvacuous_table :
   let T := [(1, 1); (5, 1); (181, 181); (185, 185); (189, 189); (193, 193)] in
   table_ok T = true /\ length (owners T) = 5%nat /\ footer_arrays T = [0; 1; 2; 3; 4].
 Proof. repeat split; vm_compute; reflexivity. Qed.
+(* a source converted from ZGY (5 x 6 x 300 at 8 bits, 300 samples from -100 ms every 2.5 ms: doubles -100.0 and 2500.0),
+   samples 256..300 requested, in binary64: served; the cropped header's doubles are 540.0 and 2500.0, the reader is on
+   the double branch and its samples 0, 1, 43 are 540.0, 542.5, 647.5 = the source's samples 256, 257, 299 *)
+Example C10_nonvacuous_zgy :
+  let H := hdr_of_list [2; 300; 6; 5; 8; 4; 4; 256; 8; 120; 4; 30; 4115] in
+  let A := {| ax_z0_ms := -100; ax_dt_us := 2500; ax_xl0 := 100; ax_xl_step := 3; ax_il0 := 10; ax_il_step := 2; ax_z0_sub_us := 0 |} in
+  let D := {| zd84 := b64 (-100) 0; zd92 := b64 2500 0 |} in
+  let el := rdr_zs_elem spec_float b64_add b64_mul b64_div b64_of_Z in
+  wf3 H = true /\ b64_is0 (zd92 D) = false /\
+  exists R ps, crop_by_indexes H A None None (Some (256, 300)) = Return R /\
+    (co_i0 R, co_i1 R, co_x0 R, co_x1 R, co_z0 R, co_z1 R) = (0, 5, 0, 6, 256, 300) /\
+    crop_f64_fields spec_float b64_add b64_mul b64_div b64_of_Z b64_is0 H D 0 5 0 6 256 300 = Some ps /\
+    map f64_executed ps = [true] /\
+    out_zdbl D ps = {| zd84 := b64 540 0; zd92 := b64 2500 0 |} /\
+    rdr_double_branch spec_float b64_is0 (out_zdbl D ps) = Some true /\
+    map (el (out_zdbl D ps)) [0; 1; 43] = [Some (b64 540 0); Some (b64 1085 (-1)); Some (b64 1295 (-1))] /\
+    map (el (out_zdbl D ps)) [0; 1; 43] = map (el D) [256; 257; 299] /\
+    field_lookup (co_fields R) 16 0 = 540.
+Proof.
+  cbv zeta. split; [vm_compute; reflexivity|]. split; [vm_compute; reflexivity|].
+  eexists. eexists. split; [vm_compute; reflexivity|]. split; [reflexivity|].
+  split; [vm_compute; reflexivity|]. repeat split; vm_compute; reflexivity.
+Qed.
